@@ -34,21 +34,21 @@ macro_rules! leaf_s {
         }
     };
 }
-//@ harness name=c5_leaf_s1 prop=C09,C20 tier=quick bits=8 desc="L: crate::consts::S1[i] == S1 of RFC 2144 appendix A for every i"
+//@ harness name=c5_leaf_s1 prop=C09,C20 tier=quick bits=8 est=5 desc="L: crate::consts::S1[i] == S1 of RFC 2144 appendix A for every i"
 leaf_s!(c5_leaf_s1, vs1, S1);
-//@ harness name=c5_leaf_s2 prop=C09,C20 tier=quick bits=8 desc="L: crate::consts::S2[i] == S2 of RFC 2144 appendix A for every i"
+//@ harness name=c5_leaf_s2 prop=C09,C20 tier=quick bits=8 est=5 desc="L: crate::consts::S2[i] == S2 of RFC 2144 appendix A for every i"
 leaf_s!(c5_leaf_s2, vs2, S2);
-//@ harness name=c5_leaf_s3 prop=C09,C20 tier=quick bits=8 desc="L: crate::consts::S3[i] == S3 of RFC 2144 appendix A for every i"
+//@ harness name=c5_leaf_s3 prop=C09,C20 tier=quick bits=8 est=5 desc="L: crate::consts::S3[i] == S3 of RFC 2144 appendix A for every i"
 leaf_s!(c5_leaf_s3, vs3, S3);
-//@ harness name=c5_leaf_s4 prop=C09,C20 tier=quick bits=8 desc="L: crate::consts::S4[i] == S4 of RFC 2144 appendix A for every i"
+//@ harness name=c5_leaf_s4 prop=C09,C20 tier=quick bits=8 est=5 desc="L: crate::consts::S4[i] == S4 of RFC 2144 appendix A for every i"
 leaf_s!(c5_leaf_s4, vs4, S4);
-//@ harness name=c5_leaf_s5 prop=C09,C20 tier=quick bits=8 desc="L: crate::consts::S5[i] == S5 of RFC 2144 appendix A for every i"
+//@ harness name=c5_leaf_s5 prop=C09,C20 tier=quick bits=8 est=5 desc="L: crate::consts::S5[i] == S5 of RFC 2144 appendix A for every i"
 leaf_s!(c5_leaf_s5, vs5, S5);
-//@ harness name=c5_leaf_s6 prop=C09,C20 tier=quick bits=8 desc="L: crate::consts::S6[i] == S6 of RFC 2144 appendix A for every i"
+//@ harness name=c5_leaf_s6 prop=C09,C20 tier=quick bits=8 est=5 desc="L: crate::consts::S6[i] == S6 of RFC 2144 appendix A for every i"
 leaf_s!(c5_leaf_s6, vs6, S6);
-//@ harness name=c5_leaf_s7 prop=C09,C20 tier=quick bits=8 desc="L: crate::consts::S7[i] == S7 of RFC 2144 appendix A for every i"
+//@ harness name=c5_leaf_s7 prop=C09,C20 tier=quick bits=8 est=10 desc="L: crate::consts::S7[i] == S7 of RFC 2144 appendix A for every i"
 leaf_s!(c5_leaf_s7, vs7, S7);
-//@ harness name=c5_leaf_s8 prop=C09,C20 tier=quick bits=8 desc="L: crate::consts::S8[i] == S8 of RFC 2144 appendix A for every i"
+//@ harness name=c5_leaf_s8 prop=C09,C20 tier=quick bits=8 est=5 desc="L: crate::consts::S8[i] == S8 of RFC 2144 appendix A for every i"
 leaf_s!(c5_leaf_s8, vs8, S8);
 
 macro_rules! leaf_f {
@@ -69,11 +69,11 @@ macro_rules! leaf_f {
         }
     };
 }
-//@ harness name=c5_leaf_f1 prop=C09,C20 tier=quick bits=72 stub=1 desc="W: body of the real f1! macro == RFC 2144 2.2 type 1: I = ((Km + D) <<< Kr), f = ((S1[Ia] ^ S2[Ib]) - S3[Ic]) + S4[Id], for all D, Km (2^64) and every rotation byte 0..=255; S1..S4 uninterpreted on both sides (c5_leaf_s1..s4), indices < 256, wrapping arithmetic only"
+//@ harness name=c5_leaf_f1 prop=C09,C20 tier=quick bits=72 stub=1 est=10 desc="W: body of the real f1! macro == RFC 2144 2.2 type 1: I = ((Km + D) <<< Kr), f = ((S1[Ia] ^ S2[Ib]) - S3[Ic]) + S4[Id], for all D, Km (2^64) and every rotation byte 0..=255; S1..S4 uninterpreted on both sides (c5_leaf_s1..s4), indices < 256, wrapping arithmetic only"
 leaf_f!(c5_leaf_f1, vf1, 1);
-//@ harness name=c5_leaf_f2 prop=C09,C20 tier=quick bits=72 stub=1 desc="W: body of the real f2! macro == RFC 2144 2.2 type 2: I = ((Km ^ D) <<< Kr), f = ((S1[Ia] - S2[Ib]) + S3[Ic]) ^ S4[Id], all arguments; S1..S4 uninterpreted on both sides"
+//@ harness name=c5_leaf_f2 prop=C09,C20 tier=quick bits=72 stub=1 est=10 desc="W: body of the real f2! macro == RFC 2144 2.2 type 2: I = ((Km ^ D) <<< Kr), f = ((S1[Ia] - S2[Ib]) + S3[Ic]) ^ S4[Id], all arguments; S1..S4 uninterpreted on both sides"
 leaf_f!(c5_leaf_f2, vf2, 2);
-//@ harness name=c5_leaf_f3 prop=C09,C20 tier=quick bits=72 stub=1 desc="W: body of the real f3! macro == RFC 2144 2.2 type 3: I = ((Km - D) <<< Kr), f = ((S1[Ia] + S2[Ib]) ^ S3[Ic]) - S4[Id], all arguments; S1..S4 uninterpreted on both sides"
+//@ harness name=c5_leaf_f3 prop=C09,C20 tier=quick bits=72 stub=1 est=10 desc="W: body of the real f3! macro == RFC 2144 2.2 type 3: I = ((Km - D) <<< Kr), f = ((S1[Ia] + S2[Ib]) ^ S3[Ic]) - S4[Id], all arguments; S1..S4 uninterpreted on both sides"
 leaf_f!(c5_leaf_f3, vf3, 3);
 
 // ---- uninterpreted leaves ---------------------------------------------------------------------------------------------
@@ -152,22 +152,22 @@ macro_rules! route_rt {
     };
 }
 
-//@ harness name=c5_route_enc16 prop=C09,C20 tier=quick bits=704 stub=1 desc="W: encrypt_block on an arbitrary 16-round state (masking, rotate: any bytes; small_key = false) == RFC 2144 encryption: Li = Ri-1, Ri = Li-1 ^ f_type(i)(Ri-1, Kmi, Kri), types 1,2,3 cyclically, output (R16, L16); round functions uninterpreted on both sides (leaf lemmas c5_leaf_f1/2/3), all blocks"
+//@ harness name=c5_route_enc16 prop=C09,C20 tier=quick bits=704 stub=1 est=10 desc="W: encrypt_block on an arbitrary 16-round state (masking, rotate: any bytes; small_key = false) == RFC 2144 encryption: Li = Ri-1, Ri = Li-1 ^ f_type(i)(Ri-1, Kmi, Kri), types 1,2,3 cyclically, output (R16, L16); round functions uninterpreted on both sides (leaf lemmas c5_leaf_f1/2/3), all blocks"
 route_conf!(c5_route_enc16, false, 16, encrypt_block, false);
-//@ harness name=c5_route_enc12 prop=C09,C20 tier=quick bits=704 stub=1 desc="W: encrypt_block on an arbitrary 12-round state (small_key = true: keys of up to 80 bits) == RFC 2144 encryption with 12 rounds; round functions uninterpreted on both sides"
+//@ harness name=c5_route_enc12 prop=C09,C20 tier=quick bits=704 stub=1 est=10 desc="W: encrypt_block on an arbitrary 12-round state (small_key = true: keys of up to 80 bits) == RFC 2144 encryption with 12 rounds; round functions uninterpreted on both sides"
 route_conf!(c5_route_enc12, true, 12, encrypt_block, false);
-//@ harness name=c5_route_dec16 prop=C09,C20 tier=quick bits=704 stub=1 desc="W: decrypt_block on an arbitrary 16-round state == RFC 2144 decryption (the same network with the round keys in reverse order, the type following the key); round functions uninterpreted on both sides"
+//@ harness name=c5_route_dec16 prop=C09,C20 tier=quick bits=704 stub=1 est=15 desc="W: decrypt_block on an arbitrary 16-round state == RFC 2144 decryption (the same network with the round keys in reverse order, the type following the key); round functions uninterpreted on both sides"
 route_conf!(c5_route_dec16, false, 16, decrypt_block, true);
-//@ harness name=c5_route_dec12 prop=C09,C20 tier=quick bits=704 stub=1 desc="W: decrypt_block on an arbitrary 12-round state == RFC 2144 decryption with 12 rounds; round functions uninterpreted on both sides"
+//@ harness name=c5_route_dec12 prop=C09,C20 tier=quick bits=704 stub=1 est=10 desc="W: decrypt_block on an arbitrary 12-round state == RFC 2144 decryption with 12 rounds; round functions uninterpreted on both sides"
 route_conf!(c5_route_dec12, true, 12, decrypt_block, true);
 
-//@ harness name=c5_route_rt_ed16 prop=C01,C20 tier=quick bits=704 stub=1 desc="W: decrypt_block(encrypt_block(b)) == b on an arbitrary 16-round state (superset of all keys of more than 80 bits), all blocks, for ANY round functions (uninterpreted)"
+//@ harness name=c5_route_rt_ed16 prop=C01,C20 tier=quick bits=704 stub=1 est=15 desc="W: decrypt_block(encrypt_block(b)) == b on an arbitrary 16-round state (superset of all keys of more than 80 bits), all blocks, for ANY round functions (uninterpreted)"
 route_rt!(c5_route_rt_ed16, false, encrypt_block, decrypt_block);
-//@ harness name=c5_route_rt_de16 prop=C01,C20 tier=quick bits=704 stub=1 desc="W: encrypt_block(decrypt_block(b)) == b on an arbitrary 16-round state, all blocks, for any round functions"
+//@ harness name=c5_route_rt_de16 prop=C01,C20 tier=quick bits=704 stub=1 est=15 desc="W: encrypt_block(decrypt_block(b)) == b on an arbitrary 16-round state, all blocks, for any round functions"
 route_rt!(c5_route_rt_de16, false, decrypt_block, encrypt_block);
-//@ harness name=c5_route_rt_ed12 prop=C01,C20 tier=quick bits=704 stub=1 desc="W: decrypt_block(encrypt_block(b)) == b on an arbitrary 12-round state (superset of all keys of 40..=80 bits), all blocks, for any round functions"
+//@ harness name=c5_route_rt_ed12 prop=C01,C20 tier=quick bits=704 stub=1 est=15 desc="W: decrypt_block(encrypt_block(b)) == b on an arbitrary 12-round state (superset of all keys of 40..=80 bits), all blocks, for any round functions"
 route_rt!(c5_route_rt_ed12, true, encrypt_block, decrypt_block);
-//@ harness name=c5_route_rt_de12 prop=C01,C20 tier=quick bits=704 stub=1 desc="W: encrypt_block(decrypt_block(b)) == b on an arbitrary 12-round state, all blocks, for any round functions"
+//@ harness name=c5_route_rt_de12 prop=C01,C20 tier=quick bits=704 stub=1 est=10 desc="W: encrypt_block(decrypt_block(b)) == b on an arbitrary 12-round state, all blocks, for any round functions"
 route_rt!(c5_route_rt_de12, true, decrypt_block, encrypt_block);
 
 // ---- half key schedule with S5..S8 uninterpreted ------------------------------------------------------------------------
@@ -218,7 +218,7 @@ fn uf_s(n: u8, i: u8) -> u32 {
     }
 }
 
-//@ harness name=c5_half_schedule_w prop=C09,C20 tier=quick bits=256 stub=1 mem=30 need=16 desc="W: schedule::key_schedule(x, z, k) == the sixteen K_i and the updated x0..xF of RFC 2144 2.4 (formulas interpreted from the oracle's index tables) for all 2^128 running values x and arbitrary incoming z; S5..S8 uninterpreted on both sides (leaf lemmas c5_leaf_s5..s8); get_i! word index / shift arithmetic is the real text, every S-box index < 256"
+//@ harness name=c5_half_schedule_w prop=C09,C20 tier=quick bits=256 stub=1 mem=30 est=100 need=15 desc="W: schedule::key_schedule(x, z, k) == the sixteen K_i and the updated x0..xF of RFC 2144 2.4 (formulas interpreted from the oracle's index tables) for all 2^128 running values x and arbitrary incoming z; S5..S8 uninterpreted on both sides (leaf lemmas c5_leaf_s5..s8); get_i! word index / shift arithmetic is the real text, every S-box index < 256"
 verif_harness! {
     name: c5_half_schedule_w,
     bytes: 32,
